@@ -1155,6 +1155,19 @@ class FD:
                         todo.append(k.node)
         return None
 
+    def _class_fully_known(self, cd):
+        """Every ancestor of the class is a pedal class (or object): its methods are all visible to the interpreter."""
+        if self.sym is None or getattr(cd, '_module', None) is None:
+            return False
+        ci = self.sym.classes.get((cd._module.name, getattr(cd, '_qualname', cd.name)))
+        if ci is None:
+            return False
+        for k in self.sym.mro(ci):
+            for b in getattr(k, 'bases', []):
+                if isinstance(b, tuple) and b and b[0] == 'external' and b[1] not in ('object',):
+                    return False
+        return True
+
     def class_property(self, obj, attr):
         """Value of a @property of the object's class (or of its pedal base classes), computed by interpreting the
         getter; _MISSING if the class defines no such property."""
@@ -1396,6 +1409,11 @@ class FD:
                 not hasattr(recv, attr):
             # a concrete Python value that simply has no such method: CPython's answer is AttributeError
             raise Raised('AttributeError', "'%s' object has no attribute '%s'" % (type(recv).__name__, attr))
+        if isinstance(recv, Obj) and '__classdef__' in recv.attrs and not recv.attrs.get('__open__') and \
+                '__unknown_method__' not in recv.attrs and self._class_fully_known(recv.attrs['__classdef__']) and \
+                self.class_method(recv, '__getattr__') is None:
+            # an instance of a pedal class whose whole ancestry is pedal's own: the class simply has no such method
+            raise Raised('AttributeError', "'%s' object has no attribute '%s'" % (recv.attrs['__classdef__'].name, attr))
         if getattr(recv, '_fd_plain_function', False) and not hasattr(recv, attr):
             # a harness value that stands for an ordinary Python function (nothing more): no such method
             raise Raised('AttributeError', "'function' object has no attribute '%s'" % attr)
